@@ -103,7 +103,7 @@ func tokenDiff(got, want []string) string {
 
 func checkC16(cfg *core.Config) int {
 	rep := core.NewReport(cfg)
-	progs := sqlProgs(cfg.Seed, cfg.Pick(24, 250))
+	progs := sqlProgs(cfg.Seed, cfg.Pick(24, 1500))
 	progs = append(progs, pinnedPrograms("C16")...)
 	pl := NewPipeline(cfg, rep, progs, true)
 	defer pl.Close()
